@@ -513,6 +513,24 @@ pub fn domain(spec: &Spec, tier: Tier, seed: u64) -> Vec<Value> {
             }
             return out;
         }
+        Some("blist") => {
+            // byte vectors (an inner type some serializers special-case)
+            let atoms = [0i64, 1, 2, 3, 13, 127, 128, 255];
+            let mut out = vec![Value::List(vec![])];
+            for a in atoms {
+                out.push(Value::List(vec![a]));
+                for b in atoms {
+                    out.push(Value::List(vec![a, b]));
+                }
+            }
+            for _ in 0..100 {
+                let n = rng.below(12);
+                out.push(Value::List((0..n).map(|_| (rng.next_u64() % 256) as i64).collect()));
+            }
+            out.sort();
+            out.dedup();
+            return out;
+        }
         Some("flist") => {
             // vectors of f64 bit patterns incl. NaN, signed zeros, infinities
             let atoms: Vec<i64> = [0.0f64, -0.0, 1.5, -1.5, f64::NAN, f64::INFINITY, 1e300].iter().map(|x| x.to_bits() as i64).collect();
